@@ -459,6 +459,8 @@ impl Server {
 
                 let mut patch = self.database.graph().new_patch();
 
+                patch.move_metadata(&key, &params.new_name.clone().into());
+
                 patch
                     .build_key(&params.new_name.clone().into())
                     .insert_from_iter(
